@@ -35,14 +35,15 @@ ASSUMPTIONS = [
 UNIT_TIMEOUT_S = 1800
 
 S = {"type": "record", "name": "Rec", "namespace": "h", "fields": [
-    {"name": "a", "type": "long"}, {"name": "b", "type": "string"}, {"name": "c", "type": ["null", "int"], "default": None}]}
+    {"name": "a", "type": "long"}, {"name": "b", "type": "string"}, {"name": "c", "type": ["null", "int"], "default": None},
+    {"name": "d", "type": ["string", "null"], "default": "n/a"}]}
 S_OTHER = {"type": "record", "name": "Other", "fields": [{"name": "zz", "type": "double"}]}
 Z = {"type": "record", "name": "Zero", "fields": [{"name": "n", "type": "null"}]}
 
 OPS_S = ["w_small", "w_large", "w_bad_first", "w_bad_last", "flush", "copy_null", "copy_deflate", "copyiter_null",
-         "reopen_none", "reopen_same", "reopen_diff", "reopen_codec", "reopen_meta", "reopen_marker", "reopen_midpos", "side_file", "reopen_samecanon", "w_omit_b", "dump", "flush_fault", "recreate"]
+         "reopen_none", "reopen_same", "reopen_diff", "reopen_codec", "reopen_meta", "reopen_marker", "reopen_midpos", "side_file", "reopen_samecanon", "w_omit_b", "dump", "flush_fault", "recreate", "w_none_d", "w_bad_encode_only"]
 OPS_Z = ["w_zero", "w_zero_omitted", "flush", "copy_null", "reopen_none", "reopen_codec", "side_file", "dump", "flush_fault"]
-DEPTH = {"quick": 5, "thorough": 7}
+DEPTH = {"quick": 5, "thorough": 6}
 PREFIX = 2
 
 
@@ -71,10 +72,22 @@ def configs(tier):
     return out
 
 
+CORE_S = ["w_small", "w_large", "w_bad_first", "w_bad_last", "flush", "copy_null", "reopen_none", "reopen_codec"]
+
+
 def ops_for(cfg, tier):
     if cfg[0] == "Z":
         return OPS_Z + (["w_bad_first"] if cfg[3] else [])
     ops = list(OPS_S)
+    if tier == "quick" and cfg[0] == "SF":
+        # file-backed configurations: the core and the operations that concern the file as such
+        return CORE_S + ["reopen_same", "reopen_marker", "reopen_midpos", "recreate", "dump", "flush_fault"]
+    if tier == "quick":
+        # the core operations in every configuration, the other ones dealt round-robin (seven per configuration, each in
+        # about half of the configurations); the thorough tier explores the whole alphabet everywhere
+        extras = [o for o in OPS_S if o not in CORE_S]
+        ci = [c for c in configs(tier)].index(cfg)
+        ops = CORE_S + [extras[(ci * 4 + j) % len(extras)] for j in range(7)]
     if cfg[3]:
         ops.append("w_bad_validator_only")  # only validation rejects it (bool for long): the raw encoder would take it
     if tier == "thorough":
@@ -232,6 +245,13 @@ class World:
             self._write({"a": True, "b": "s", "c": k}, True)
         elif op == "w_bad_last":
             self._write({"a": k, "b": "ok", "c": "not-an-int"}, True)
+        elif op == "w_none_d":
+            # an explicit None where the field's default is something else: the None is what was submitted
+            self._write({"a": k, "b": "s", "c": None, "d": None}, False)
+        elif op == "w_bad_encode_only":
+            # passes validation (a str is a string) but cannot be encoded (a lone surrogate has no UTF-8 form), after the
+            # first field has already been encoded
+            self._write({"a": k, "b": "\ud800", "c": k}, True)
         elif op == "w_omit_b":
             # the file's schema gives b no default: a record without b is never acceptable, whatever schema object a
             # later append was opened with
@@ -280,7 +300,7 @@ class World:
             # another container file is produced in the same process while this Writer is alive (another Writer's whole
             # lifetime falls inside this one's, possibly with records pending here): neither may disturb the other
             fo2 = io.BytesIO()
-            recs2 = [{"a": 7000 + k, "b": "side", "c": None}, {"a": 1, "b": "x" * 30, "c": 2}] if self.kind == "S" else [{"n": None}]
+            recs2 = [{"a": 7000 + k, "b": "side", "c": None, "d": None}, {"a": 1, "b": "x" * 30, "c": 2, "d": "dd"}] if self.kind == "S" else [{"n": None}]
             try:
                 self.fa.writer(fo2, copy.deepcopy(S if self.kind == "S" else Z), copy.deepcopy(recs2), codec=self.codec, sync_marker=b"E" * 16)
                 got2 = list(self.fa.reader(io.BytesIO(fo2.getvalue())))
